@@ -514,6 +514,10 @@ def _r4(ctx):
         ctx.holds(mk, mk.node, "slope selector evaluated symbolically through both callers")
 
 
+class ScatterValueCondition(AnalysisError):
+    pass
+
+
 def scatter_table(prog):
     """The values the Woehler accessor's validation gives TN and TS for the four cases (TN given?, TS given?), read off the
     symbolic state at the end of `_validate` (helpers expanded).  -> (FuncInfo, {(tn_missing, ts_missing): (TN term, TS term)},
@@ -544,6 +548,42 @@ def scatter_table(prog):
                 return None
             table[(a, b)] = (term_select(tn_t, truth), term_select(ts_t, truth))
     if any(x is None for pair in table.values() for x in pair):
+        # which condition could not be decided?  If it looks at the *value* of a given scatter (anything but `is None`), the
+        # validation keeps or replaces what the user gave depending on that value - that is a culprit, not an unknown shape
+        from ..absint import cond_value, term_walk
+
+        def first_undecided(t, truth):
+            for _ in range(60):
+                if isinstance(t, tuple) and len(t) == 4 and t[0] == "ite":
+                    val = cond_value(t[1], truth)
+                    if val is None:
+                        return t[1]
+                    t = t[2] if val else t[3]
+                    continue
+                return None
+            return None
+
+        def atoms(c):
+            if isinstance(c, tuple) and c and c[0] == "bool":
+                for x in c[2]:
+                    yield from atoms(x)
+            elif isinstance(c, tuple) and len(c) == 3 and c[0] == "u" and c[1] == "not":
+                yield from atoms(c[2])
+            else:
+                yield c
+        truth = lambda c: (False if isinstance(c, tuple) and len(c) == 4 and c[0] == "cmp" and c[1] == "is" and c[3] == ("c", None)
+                           and (is_tn(c[2]) or is_ts(c[2])) else None)           # both given
+        for t_ in (tn_t, ts_t):
+            c = first_undecided(t_, truth)
+            if c is None:
+                continue
+            for at in atoms(c):
+                if cond_value(at, truth) is None and any(is_tn(x) or is_ts(x) for x in term_walk(at)):
+                    e = ScatterValueCondition("_validate: whether a given scatter value is kept depends on a condition on its value")
+                    inner = [a2 for x in term_walk(at) if isinstance(x, tuple) and len(x) == 4 and x[0] == "ite"
+                             for a2 in atoms(x[1]) if cond_value(a2, truth) is None]
+                    e.func, e.cond = v0, (inner[0] if inner else at)
+                    raise e
         raise AnalysisError("_validate: the case analysis on the missing scatter values was not understood")
     return v0, table, is_tn, is_ts
 
@@ -552,7 +592,20 @@ def _r5(ctx):
     prog = ctx.prog
     ctx.rule("R-C08-5", floor=1, what="TS = TN^(1/k_1) and TN = TS^k_1 are mutual inverses, each derived only when it is missing")
     from ..absint import term_to_nf
-    v, table, is_tn, is_ts = scatter_table(prog)
+    try:
+        v, table, is_tn, is_ts = scatter_table(prog)
+    except ScatterValueCondition as e:
+        from ..absint import term_to_ast
+        try:
+            txt = norm_text(term_to_ast(e.cond))
+        except Exception:
+            from ..absint import term_walk
+            txt = "a test using " + ", ".join(sorted({x[1] for x in term_walk(e.cond) if isinstance(x, tuple) and len(x) >= 3 and
+                                                     x[0] == "call" and isinstance(x[1], str)})) or repr(e.cond)
+        ctx.violated(e.func, e.func.node, "the validation decides by the *value* of a given scatter (%s) whether it is kept or "
+                     "re-derived from the other one: for such a curve N_90/N_10 (SD_90/SD_10) is no longer the TN (TS) the user "
+                     "gave" % txt[:120], text="scatter kept depending on its value")
+        return
 
     from ..absint import term_to_ast
 
